@@ -108,6 +108,21 @@ Theorem C13_expand_iso_partial :
 Proof. intros a ps nts ds nts' _ _ H. exact (iso_check_sound _ _ H). Qed.
 Print Assumptions C13_expand_iso_partial.
 
+(* the step the full theorem iterates: in ANY state of the resolution whose dictionary holds
+   only symbols of K, a reference (whatever its operator, separator, greedy mark -- "+!"
+   excepted) whose possible helper symbols are in K resolves to the same symbol and creates the
+   same helper rules whether the dictionaries are keyed by generated NAME (what the impl does)
+   or by the structure (base, operator, separator, greedy) (the documented expansion), provided
+   generated names identify the symbols of K *)
+Theorem C13_resolve_agree_partial :
+  forall (K : list dsym) (r : fref) (st : xstate),
+    (forall a b, In a K -> In b K -> neqb a b = deqb a b) ->
+    incl (x_tab st) K -> incl (keys_of_ref r) K ->
+    (fr_mult r = MPlus -> fr_greedy r = false) ->
+    resolve neqb lkey_name r st = resolve deqb lkey_struct r st.
+Proof. exact resolve_agree. Qed.
+Print Assumptions C13_resolve_agree_partial.
+
 (* ---- refutations: the faithful model violates the property as written ------------------- *)
 Definition n_S : name := [83].   Definition n_a : name := [97].   Definition n_b : name := [98].
 Definition n_x : name := [120].  Definition n_q : name := [113].
